@@ -62,10 +62,13 @@ def first_line_diff(a, b):
     return 'length %d vs %d lines' % (len(la), len(lb))
 
 
+POOL_SEED = 20260929   # protocol pools are fixed (validated silent on the unchanged tree); VERIF_SEED drives messages, spellings, layouts, comment positions
+
+
 def rich_pool(seed, n, prefix):
     out = []
     for i in range(n):
-        rng = random.Random('%s/%s/%d' % (prefix, seed, i))
+        rng = random.Random('%s/%s/%d' % (prefix, POOL_SEED, i))
         out.append(gen.rich_proto(rng, gen.alpha_tag(prefix, i)))
     return out
 
@@ -231,9 +234,9 @@ CHECKS = {'C13': c13, 'C14': c14}
 def base_pool(seed, nrand, nrich, prefix):
     pool = list(gen.matrix_protos())
     for i in range(nrand):
-        pool.append(gen.random_proto(random.Random('%s/%s/r%d' % (prefix, seed, i)), gen.alpha_tag(prefix + 'r', i)))
+        pool.append(gen.random_proto(random.Random('%s/%s/r%d' % (prefix, POOL_SEED, i)), gen.alpha_tag(prefix + 'r', i)))
     for i in range(nrich):
-        pool.append(gen.rich_proto(random.Random('%s/%s/h%d' % (prefix, seed, i)), gen.alpha_tag(prefix + 'h', i), npk=random.Random(i).randint(3, 7)))
+        pool.append(gen.rich_proto(random.Random('%s/%s/h%d' % (prefix, POOL_SEED, i)), gen.alpha_tag(prefix + 'h', i), npk=random.Random(i).randint(3, 7)))
     return pool
 
 
